@@ -168,4 +168,114 @@ theorem prevK_spec (e : Env) (he : GenSpec e) : ∀ (k : ℕ) (s : St) (c : Cur)
         have ecut := primeCnt_cut hvp (Nat.zero_le v) hvle
         exact ih'.2 (by omega)
 
+/-! ### the two loops on a fresh iterator -/
+
+theorem fresh_hi (a : ℕ) : (Cur.fresh a).hi = a := rfl
+theorem fresh_lo (a : ℕ) : (Cur.fresh a).lo = a := rfl
+
+theorem primeCnt_umax : primeCnt umax umax = 0 :=
+  primeCnt_eq_zero (fun q hq h1 h2 => umax_not_prime ((show q = umax by omega) ▸ hq))
+
+theorem fwd_core (e : Env) (he : GenSpec e) (start hint k : ℕ) (hs : start ≤ umax) (hh : hint ≤ umax) :
+    (∀ p, p.Prime → start < p → p ≤ umax → primeCnt (start + 1) p = k →
+      nextK e k (init (checkedAdd start 1) hint) 0 = .ok p) ∧
+    (primeCnt (start + 1) umax < k → nextK e k (init (checkedAdd start 1) hint) 0 = .error (.iter .ps)) := by
+  by_cases hlt : start < umax
+  · rw [checkedAdd_one _ hlt]
+    have h := nextK_spec e he k _ _ 0 (inv_init (start + 1) hint (by omega) hh)
+    rw [fresh_hi] at h
+    exact ⟨fun p hp h1 h2 h3 => h.1 p hp (by omega) h2 h3, h.2⟩
+  · have hsu : start = umax := by omega
+    have hc : checkedAdd start 1 = umax := by rw [hsu]; decide
+    rw [hc]
+    have h := nextK_spec e he k _ _ 0 (inv_init umax hint (le_refl _) hh)
+    rw [fresh_hi] at h
+    refine ⟨fun p _ h1 h2 _ => by omega, fun hk => h.2 ?_⟩
+    rw [primeCnt_umax]
+    have := primeCnt_add.empty (start + 1) umax (by omega)
+    omega
+
+theorem bwd_core (e : Env) (he : GenSpec e) (start hint k : ℕ) (hs : start ≤ umax) (hh : hint ≤ umax) :
+    (∀ q, q.Prime → q ≤ start → primeCnt q start = k → prevK e k (init start hint) 0 = .ok q) ∧
+    (primeCnt 0 start < k → prevK e k (init start hint) 0 = .error .below2) := by
+  have h := prevK_spec e he k _ _ 0 (inv_init start hint hs hh)
+  rw [fresh_lo] at h
+  exact h
+
+/-! ### `PrimeSieve::nthPrime(n, start)`, `n >= 0` -/
+
+theorem nthPrimePos_tooLarge (e : Env) (nf : NthFloats) (cnt : ℕ → ℕ → ℕ) (n0 start0 : ℕ)
+    (hn : (if n0 = 0 then 1 else n0) > maxN) : nthPrimePos e nf cnt n0 start0 = .error .tooLarge := by
+  unfold nthPrimePos
+  simp only []
+  rw [if_pos hn]
+
+/-- `nthPrime(n, start)` for `n >= 0` (0 is treated as 1), for EVERY outcome of `primePiApprox`, `nthPrimeApprox` (a uint64),
+    `avgPrimeGap`, `isqrt`: the result is the `n`-th prime above `start`; when `(start, 2^64-1]` holds fewer than `n` primes the
+    iterator's `primesieve_error` comes out. Both the forward branch (approximation undershoots) and the backward branch
+    (overshoots; `prev_prime()` can then never return 0) are covered. -/
+theorem nthPrimePos_correct (e : Env) (he : GenSpec e) (nf : NthFloats) (hna : ∀ x, nf.nthApprox x ≤ umax)
+    (n0 start0 : ℕ) (hs : start0 ≤ umax) (hn : (if n0 = 0 then 1 else n0) ≤ maxN) :
+    (∀ p, p.Prime → start0 < p → p ≤ umax → primeCnt (start0 + 1) p = (if n0 = 0 then 1 else n0) →
+      nthPrimePos e nf primeCnt n0 start0 = .ok p) ∧
+    (primeCnt (start0 + 1) umax < (if n0 = 0 then 1 else n0) →
+      nthPrimePos e nf primeCnt n0 start0 = .error (.iter .ps)) := by
+  have hn1 : 1 ≤ (if n0 = 0 then 1 else n0) := by split <;> omega
+  unfold nthPrimePos
+  simp only []
+  generalize (if n0 = 0 then 1 else n0) = n at *
+  rw [if_neg (by omega)]
+  have hpa : max (nf.nthApprox (min (checkedAdd (nf.piApprox start0) n) maxN)) start0 ≤ umax := Nat.max_le.2 ⟨hna _, hs⟩
+  have hpa2 : start0 ≤ max (nf.nthApprox (min (checkedAdd (nf.piApprox start0) n) maxN)) start0 := Nat.le_max_right _ _
+  generalize max (nf.nthApprox (min (checkedAdd (nf.piApprox start0) n) maxN)) start0 = pa at *
+  by_cases hA : pa - start0 > nf.isq pa / 10
+  · rw [if_pos hA]
+    simp only []
+    have hlt : start0 < pa := by omega
+    rw [checkedAdd_one start0 (by omega), Nat.max_eq_right (show start0 + 1 ≤ pa by omega)]
+    generalize hc : primeCnt (start0 + 1) pa = c
+    by_cases hcn : c < n
+    · rw [if_pos hcn]
+      have hh : checkedAdd (checkedAdd pa 1) ((n - c) * nf.avgGap pa % two64) ≤ umax :=
+        checkedAdd_le _ _ (checkedAdd_le _ _ hpa)
+      generalize checkedAdd (checkedAdd pa 1) ((n - c) * nf.avgGap pa % two64) = hint at hh
+      have h := fwd_core e he pa hint (n - c) hpa hh
+      constructor
+      · intro p hp h1 h2 h3
+        have hpap : pa < p := by
+          by_contra hcon
+          have := primeCnt_mono_right (a := start0 + 1) (show p ≤ pa by omega)
+          omega
+        have e1 := primeCnt_add.split (start0 + 1) pa p (by omega) (by omega)
+        exact h.1 p hp hpap h2 (by omega)
+      · intro hlt2
+        have e1 := primeCnt_add.split (start0 + 1) pa umax (by omega) hpa
+        exact h.2 (by omega)
+    · rw [if_neg hcn]
+      have hh : checkedSub pa ((c - n) * nf.avgGap pa % two64) ≤ umax := le_trans (checkedSub_le _ _) hpa
+      generalize checkedSub pa ((c - n) * nf.avgGap pa % two64) = hint at hh
+      have h := bwd_core e he pa hint (c - n + 1) hpa hh
+      constructor
+      · intro p hp h1 h2 h3
+        have hppa : p ≤ pa := by
+          by_contra hcon
+          have e1 := primeCnt_add.split (start0 + 1) pa p (by omega) (by omega)
+          have := primeCnt_pos hp (show pa + 1 ≤ p by omega) (le_refl p)
+          omega
+        have c1 := primeCnt_cut hp (show start0 + 1 ≤ p by omega) hppa
+        have c2 := primeCnt_cut hp (show start0 + 1 ≤ p by omega) (le_refl p)
+        have c3 := primeCnt_cut hp (le_refl p) hppa
+        have z1 : primeCnt (p + 1) p = 0 := primeCnt_add.empty _ _ (by omega)
+        have z2 : primeCnt p (p - 1) = 0 := primeCnt_add.empty _ _ (by have := hp.two_le; omega)
+        exact h.1 p hp hppa (by omega)
+      · intro hlt2
+        have := primeCnt_mono_right (a := start0 + 1) hpa
+        omega
+  · rw [if_neg hA]
+    simp only []
+    rw [if_pos (by omega), Nat.sub_zero]
+    have hh : checkedAdd (checkedAdd start0 1) (n * nf.avgGap pa % two64) ≤ umax :=
+      checkedAdd_le _ _ (checkedAdd_le _ _ hs)
+    generalize checkedAdd (checkedAdd start0 1) (n * nf.avgGap pa % two64) = hint at hh
+    exact fwd_core e he start0 hint n hs hh
 end Pc.It
